@@ -559,7 +559,7 @@ Definition render_flags : list string := [
 
 (* the functions that may start goroutines: the evaluation workers (the model's workers) and one writer per sink (C11) *)
 Definition go_sites : list string := [
-  "render.evalRoutines"; "render.startEvalRoutines"; "render.writeSTL"; "render.write3MF"; "render.writeDXF"; "render.writeSVG";
+  "render.evalRoutines"; "render.writeSTL"; "render.write3MF"; "render.writeDXF"; "render.writeSVG";
   "sdf.WriteTriangles"
 ].
 
@@ -582,7 +582,7 @@ Definition render_effect_ok (e : effect) : bool :=
   | EWrite x ls fn =>
       negb (match ls with [] => true | _ => false end)          (* guarded by a mutex of its owner *)
       || prefix_in render_private x || mem x render_flags
-      || (String.prefix "recv(render.evalProcessCh)" x && String.prefix "render.evalRoutines" fn)   (* the worker's r.out[i] = ... *)
+      || String.prefix "recv(render.evalProcessCh)" x       (* memory received through the request queue: the worker's r.out[i] = r.fn(p) *)
   | EGo _ fn => prefix_in go_sites fn
   | EChan _ ch _ => prefix_in chan_ok ch
   | EMapRange _ _ => false
